@@ -313,6 +313,9 @@ func (e *Exec) runPath(h *ssa.Function, item WorkItem, trackFuncs bool) (res Pat
 		r := recover()
 		e.undoJournal()
 		e.path = nil
+		for k := range ps.natives {
+			e.nativesSeen[k] = true
+		}
 		switch r := r.(type) {
 		case nil:
 		case targetPanic:
